@@ -381,6 +381,7 @@ func AdmittedDomain() *Domain {
 var faultKinds = []Fault{
 	{Kind: "ServerError"}, {Kind: "Conflict"}, {Kind: "NotFound"}, {Kind: "AlreadyExists"}, {Kind: "Timeout"},
 	{Kind: "Timeout", Applied: true}, {Die: true, Kind: "Die"}, {Die: true, Applied: true, Kind: "Die"},
+	{Kind: "Forbidden"}, {Kind: "Invalid"},
 }
 
 // FaultDomain wraps a snapshot domain with one or two injected faults: every plan position 1..maxK (positions past
